@@ -280,7 +280,42 @@ func mergeIteratorPrefersCache(r *Run, rule string) {
 	if f == nil {
 		return
 	}
-	n := 0
+	// which of the comparison outcomes -1 / 0 / 1 an alternative's guards leave possible (cases may be merged:
+	// `case 0, 1:` is reached under !(cmp == -1))
+	isCompare := func(t *Term) bool { return t.Op == "call" && strings.HasSuffix(t.Name, ".compare") }
+	outcomes := func(g []Atom) (set [3]bool, mentioned bool) {
+		set = [3]bool{true, true, true}
+		keep := func(pos bool, sel [3]bool) {
+			for k := range set {
+				if sel[k] != pos {
+					set[k] = false
+				}
+			}
+		}
+		for _, a := range g {
+			if a.T.Op != "binop" || len(a.T.Args) != 2 {
+				continue
+			}
+			l, rr := a.T.Args[0], a.T.Args[1]
+			switch {
+			case a.T.Name == "==" && (isCompare(l) && rr.Op == "const" || isCompare(rr) && l.Op == "const"):
+				c := rr.Name
+				if isCompare(rr) {
+					c = l.Name
+				}
+				mentioned = true
+				keep(a.Pos, [3]bool{c == "-1", c == "0", c == "1"})
+			case a.T.Name == "<" && isCompare(l) && rr.Op == "const":
+				mentioned = true
+				keep(a.Pos, [3]bool{true, rr.Name == "1", false})
+			case a.T.Name == "<" && isCompare(rr) && l.Op == "const":
+				mentioned = true
+				keep(a.Pos, [3]bool{false, l.Name == "-1", true})
+			}
+		}
+		return
+	}
+	seenEq, seenLt := false, false
 	for i, a := range P.RetAlternatives(f, 0) {
 		t := a.T.String()
 		isParent := strings.Contains(t, "Iterator.Value(param:iter.parent)")
@@ -288,19 +323,21 @@ func mergeIteratorPrefersCache(r *Run, rule string) {
 		if !isParent && !isCache {
 			continue
 		}
-		eq, _ := HasAtom(a.G, `^\(.*compare\(.*\) == 0\)$|^\(0 == .*compare\(.*\)\)$`)
-		lt, _ := HasAtom(a.G, `^\(.*compare\(.*\) < 0\)$|^\(.*compare\(.*\) == -1\)$|^\(-1 == .*compare\(.*\)\)$`)
-		if eq {
-			n++
+		set, mentioned := outcomes(a.G)
+		if !mentioned {
+			continue
+		}
+		if set[1] {
+			seenEq = true
 			r.Check(isCache, rule, fmt.Sprintf("mergeIterator.Value/alternative#%d/equal-keys=>cache", i), P.InstrPos(a.Ret), "cache value on equal keys", "on equal keys Value() returns "+oneLine(t)+" ; required the cache's value (the overwrite)")
 		}
-		if lt {
-			n++
+		if set[0] {
+			seenLt = true
 			r.Check(isParent, rule, fmt.Sprintf("mergeIterator.Value/alternative#%d/parent-first=>parent", i), P.InstrPos(a.Ret), "parent value when the parent key is first", "when the parent key comes first Value() returns "+oneLine(t))
 		}
 	}
-	if n < 2 {
-		r.Viol(rule, "mergeIterator.Value/alternatives", P.Pos(f.Pos()), fmt.Sprintf("only %d of the comparison outcomes of Value() could be identified", n))
+	if !seenEq || !seenLt {
+		r.Viol(rule, "mergeIterator.Value/alternatives", P.Pos(f.Pos()), fmt.Sprintf("the comparison outcomes of Value() could not be identified (equal keys: %v, parent first: %v)", seenEq, seenLt))
 	}
 }
 
